@@ -48,7 +48,7 @@ TECHNIQUE = "property-based testing (Hypothesis) vs closed-form integrals over t
 DESIGN_REF = "DESIGN.md 4/C09"
 READY = True
 
-TOL = 2e-12  # identity level (x scale of the inputs)
+TOL = 5e-12  # identity level (x scale of the inputs); largest honest ratio 2.7e-14 over 20800 thorough cases
 DEG_CAP = 3
 
 # exactness of the rules (see ASSUMPTIONS); TRI/TETRA total degree, PRISM (triangle, axis)
